@@ -550,7 +550,9 @@ def sec_chain_weights(rec, patches=None):
 
 
 def sections(tier):
-    S = [("chain", "checks.c07", "sec_chain", {}), ("chain-weights", "checks.c07", "sec_chain_weights", {}), ("cutoff", "checks.c07", "sec_cutoff", {}), ("landscape-upsampled-multi", "checks.c07", "sec_landscape_upsampled", {})]
+    S = [("chain", "checks.c07", "sec_chain", {}), ("chain-weights", "checks.c07", "sec_chain_weights", {}), ("cutoff", "checks.c07", "sec_cutoff", {}), ("landscape-upsampled-multi", "checks.c07", "sec_landscape_upsampled", {}),
+         # the wedge that enters a model's score is the wedge of that model's own tilt range, whatever models were used before it in the process (decided by C08's section)
+         ("wedge-of-this-model", "checks.c08", "sec_model_history", {})]
     shapes = [(1, 1, 2), (1, 2, 2), (1, 1, 3)] if quick(tier) else [(1, 1, 2), (1, 2, 2), (1, 1, 3), (2, 2, 2), (1, 2, 3), (2, 2, 3)]
     for shp in shapes:
         S.append((f"formulas-{shp}", "checks.c07", "sec_formulas", {"shape": shp}))
